@@ -546,13 +546,32 @@ def run(chk, replay=None):
                 f.write(text)
     chk.coverage['translator'] = {'status': 'ok' if not info['unparsed'] else 'partial', 'rules': info['rules'],
                                   'params': info['params'], 'suffixes': info['suffixes'], 'unparsed': info['unparsed'],
-                                  'printer_fixes_in_source': info['printer_fixes'], 'printer_notes': info['printer_notes']}
+                                  'printer_fixes_in_source': info['printer_fixes'], 'printer_notes': info['printer_notes'],
+                                  'opts_constants': info['opts_constants'], 'suffix_aliases': info['suffix_aliases']}
     # ---- 2. proofs
-    broken = chk.lean(['Lcapy/Props/C06.lean', 'Lcapy/Props/C06Line.lean', 'Lcapy/Props/C06Fixed.lean'],
-                      helper_files=['Lcapy/Proofs/ParserLemmas.lean', 'Lcapy/Proofs/ParserRoundTrip.lean',
-                                    'Lcapy/Model/Parser.lean', 'Lcapy/Spec/Netlist.lean',
-                                    'Lcapy/Spec/NetlistExec.lean', 'Lcapy/Driver/C06.lean', 'Lcapy/Generated/Grammar.lean'],
-                      leanchecker=(chk.tier == 'thorough'))
+    # Other processes may rewrite the generated table while we build (seeded-change runs of any property restore a
+    # snapshot of lean/Lcapy/Generated/*.lean when they finish; checks against private worktrees regenerate it):
+    # what was proved must be the table of THIS source tree, so re-check the file after the build and retry.
+    for attempt in range(4):
+        with common.LakeLock():
+            if not os.path.exists(gen_path) or open(gen_path).read() != text:
+                with open(gen_path, 'w') as f:
+                    f.write(text)
+        broken = chk.lean(['Lcapy/Props/C06.lean', 'Lcapy/Props/C06Line.lean', 'Lcapy/Props/C06Netlist.lean',
+                           'Lcapy/Props/C06Nested.lean', 'Lcapy/Props/C06Fixed.lean'],
+                          helper_files=['Lcapy/Proofs/ParserLemmas.lean', 'Lcapy/Proofs/ParserRoundTrip.lean',
+                                        'Lcapy/Model/Parser.lean', 'Lcapy/Spec/Netlist.lean',
+                                        'Lcapy/Spec/NetlistExec.lean', 'Lcapy/Driver/C06.lean', 'Lcapy/Generated/Grammar.lean'],
+                          leanchecker=(chk.tier == 'thorough'))
+        try:
+            same = open(gen_path).read() == text
+        except OSError:
+            same = False
+        if same:
+            break
+        chk.count('infrastructure', 'generated-table-rewritten-by-another-process')
+    else:
+        raise common.Infra('lean/Lcapy/Generated/Grammar.lean keeps being changed by another process during the build; rerun')
     drv = chk.get_driver()
     real = Real()
     rng = chk.rng
@@ -716,6 +735,38 @@ def run(chk, replay=None):
             chk.count('degenerate', 'lcapy-rejects-at-construction')
             return 'rejected-at-construction'
         t1o = [rec_of_cpt(e) for e in c1._elements.values()]
+        # ---------- the library's second printer, Cpt._netsubs (used by subs / rename_nodes / zeroing): with no
+        # substitution it must denote the same component as str(cpt) does (judged by the Lean spec predicate)
+        for e in c1._elements.values():
+            if e.type == 'XX':
+                continue
+            try:
+                ns = e._netsubs()
+            except Exception as ex:   # noqa
+                chk.count('netsubs', 'raises:' + type(ex).__name__)
+                continue
+            recs, errn = real.stub_parse(ns)
+            if errn is not None or len(recs) != 1:
+                vn = 'reparse-error'
+            else:
+                vn = spec_verdict([rec_of_cpt(e)], recs, 'x', 'x')
+            chk.count('netsubs', 'same-component' if vn == 'ok' else 'differs:' + vn)
+            if vn != 'ok':
+                kp = e.keyword[0] if isinstance(e.keyword, tuple) else None
+                if kp == 0 and e.keyword[1] != '' and len(e.node_names) > 0:
+                    cause = 'netsubs-keyword-position'
+                elif any(a is None for a in list(e.args)[:-1]):
+                    cause = 'netsubs-drops-undefined-arg'
+                else:
+                    cause = 'netsubs-other'
+                state['cex'] += 1
+                k2 = {'kind': 'roundtrip', 'cause': cause}
+                if cause == 'netsubs-other':
+                    k2.update({'rule': e.classname, 'clause': vn})
+                chk.counterexample(k2, {'input': text, 'lcapy': {'component': e.name, 'str': str(e), '_netsubs': ns,
+                                                                  'reparsed': [r.tup() for r in recs], 'error': errn},
+                                        'meta': meta, 'spec': 'Cpt._netsubs() (no substitution) denotes the same component as str(cpt): ' + vn},
+                                   'the printer used by subs()/rename_nodes() writes a different component (%s)' % vn)
         nontrivial = p1.strip() not in names
         chk.case(text, nontrivial)
         t2, err2 = real.stub_parse(p1)
@@ -851,6 +902,24 @@ def run(chk, replay=None):
         chk.count('direct', 'opts')
         if lc != md:
             disagree('opts', s, lc, md)
+        # theorem instance `opts_format_parse` (hypothesis evaluated by Lean) + oracle on the real Opts:
+        # Opts(Opts(s).format()) == Opts(s), and format is idempotent
+        on = drv.ask1('c06.optsnormal ' + enc(s))
+        chk.count('theorem-hypothesis optsNormal[direct]', on)
+        if lc.startswith('ok'):
+            try:
+                o1 = real.Opts(s)
+                f1 = o1.format()
+                o2 = real.Opts(f1)
+                good = typed_opts(o1) == typed_opts(o2) and o2.format() == f1
+            except Exception:   # noqa
+                good = False
+            chk.count('opts-oracle', 'format-parse-ok' if good else ('format-parse-differs[normal=%s]' % on))
+            if not good and on == 'true':
+                state['cex'] += 1
+                chk.counterexample({'kind': 'opts', 'clause': 'format-parse'},
+                                   {'input': s, 'lcapy': {'format': f1}, 'spec': 'Opts(format(o)) = o for option tables in normal form'},
+                                   'Opts(format(o)) differs from o')
     # value_parser: model value is exact; the code computes float(mantissa) * 1e<k> (two roundings)
     mants = ['1', '42', '4.7', '0.5', '.25', '3.', '1e3', '2.5e-2', '-7', '+8', '1E2', '12.5', 'x', '1x', '', '1.2.3', 'e5', '--1', '1e', '1e+']
     sufs = ['f', 'p', 'n', 'u', 'm', 'k', 'M', 'G', 'T', 'K', 'Meg', 'q', '', 'meg', 'kk']
@@ -1051,6 +1120,69 @@ def run(chk, replay=None):
             continue
         chk.count('rewrite', rw)
         roundtrip_case(text, {'rule': 'rewrite:' + rw}, 'rewrite')
+
+    # ---- 3e'. computed values: what the printer writes for a SymPy value must be read back as the same value
+    S = real.sympy
+    try:
+        carrier = real.circuit('R1 1 2 3').R1
+    except Exception:   # noqa
+        carrier = None
+    VALS = ['exp(1)', '3*exp(1)/4', 'exp(1)*s + 1', 'exp(2)', 'exp(-1)', 'pi*exp(1)', '2*j', 'sqrt(2)*pi', 'exp(x)', 'cos(1)',
+            '1/3', 'j*omega*exp(1)', 'exp(1)**2', 'log(2)', 'exp(1 + j)']
+    for vtxt in VALS:
+        if carrier is None:
+            break
+        try:
+            x = real.lcapy.expr(vtxt)
+            printed = carrier._arg_format(x)
+            inner = printed[1:-1] if printed[:1] == '{' else printed
+            y = real.lcapy.expr(inner)
+            good = S.simplify(x.sympy - y.sympy) == 0 and x.sympy.free_symbols == y.sympy.free_symbols
+        except Exception as ex:   # noqa
+            chk.count('value-print', 'skipped:' + type(ex).__name__)
+            continue
+        chk.count('value-print', 'same-value' if good else 'differs')
+        chk.case('value-print:' + vtxt, True)
+        if not good:
+            state['cex'] += 1
+            cause = 'eulers-number-printed-as-E' if (x.sympy.has(S.E) or x.sympy.has(S.exp)) and S.Symbol('E') in y.sympy.free_symbols else 'other'
+            chk.counterexample({'kind': 'value-print', 'cause': cause},
+                               {'input': vtxt, 'lcapy': {'printed': printed, 'value': str(x.sympy), 'read_back': str(y.sympy),
+                                                          'free_symbols_read_back': sorted(str(q) for q in y.sympy.free_symbols)},
+                                'spec': 'expr(_arg_format(expr(v))) = v'},
+                               'a computed value is printed as text that reads back as a different value')
+    # value-preserving rewrites: subs() of an unrelated symbol and copy() must keep every component's value
+    E_CIRCUITS = ['V1 1 0 step 2\nR1 1 2 1\nC1 2 0 1 {3*exp(1)}', 'V1 1 0 {exp(1)*u(t)}\nR1 1 2 {exp(1)}\nL1 2 0 {2*exp(-1)} 1']
+    for text in REWRITE_CIRCUITS + E_CIRCUITS:
+        try:
+            c0 = real.circuit(text)
+        except Exception:   # noqa
+            continue
+        for rw in ('subs-unrelated', 'copy'):
+            try:
+                d = c0.subs({'zz_unrelated': 1}) if rw == 'subs-unrelated' else c0.copy()
+                pairs = list(zip(c0._elements.values(), d._elements.values()))
+                if len(pairs) != len(c0._elements) or len(d._elements) != len(c0._elements):
+                    raise ValueError('component count')
+                bad = None
+                for e1, e2 in pairs:
+                    s1, s2 = real.sig(e1), real.sig(e2)
+                    if not real.sig_equal(s1, s2):
+                        bad = (e1.name, str(s1)[:200], str(s2)[:200], str(e1), str(e2))
+                        break
+            except Exception as ex:   # noqa
+                chk.count('rewrite-preserves', '%s:skipped:%s' % (rw, type(ex).__name__))
+                continue
+            chk.count('rewrite-preserves', '%s:%s' % (rw, 'same' if bad is None else 'differs'))
+            chk.case('rewrite-preserves:%s:%s' % (rw, text), True)
+            if bad is not None:
+                state['cex'] += 1
+                cause = 'eulers-number-printed-as-E' if ('exp(1)' in text or 'exp(-1)' in text) and 'E' in bad[4] else 'other'
+                chk.counterexample({'kind': 'rewrite-preserves', 'rewrite': rw, 'cause': cause},
+                                   {'input': text, 'lcapy': {'component': bad[0], 'before': bad[1], 'after': bad[2],
+                                                              'printed_before': bad[3], 'printed_after': bad[4]},
+                                    'spec': '%s keeps the value of every component' % rw},
+                                   '%s changes the value of %s' % (rw, bad[0]))
 
     # ---- 3f. same analysis results after the round trip (a few solvable circuits)
     n_an = 3 if not thorough else len(REWRITE_CIRCUITS)
